@@ -40,7 +40,7 @@ func (v *Verifier) libSpecCall(x *Exec, env *Env, e *SCall) (Value, bool) {
 	var args []*Term
 	for i := range e.Args {
 		a := x.compileTV(env, e.Args[i])
-		want := x.ti.SortOf(fn.Signature.Params().At(i).Type())
+		want := x.ti.SortOf(allParamTypes(fn.Signature)[i])
 		if a.T.Sort != want {
 			env.fail("argument %d of %s has sort %s, want %s", i, e.Fun, a.T.Sort, want)
 		}
@@ -96,6 +96,12 @@ func (v *Verifier) resolveLibName(name string) string {
 		if pkg == pn || strings.HasSuffix(pkg, "/"+pn) {
 			return k
 		}
+		// method of a type of that package: pkg.Recv.name
+		if jj := strings.LastIndex(pkg, "."); jj >= 0 {
+			if p2 := pkg[:jj]; p2 == pn || strings.HasSuffix(p2, "/"+pn) {
+				return k
+			}
+		}
 	}
 	return name
 }
@@ -112,16 +118,16 @@ func (x *Exec) functionalApp(key string, c *Contract, fn *ssa.Function, args []*
 	fname := "f_" + sanitize(key)
 	if !x.declared[fname] {
 		var ps []string
-		for i := 0; i < sig.Params().Len(); i++ {
-			ps = append(ps, string(x.ti.SortOf(sig.Params().At(i).Type())))
+		ptypes := allParamTypes(sig)
+		for _, pt := range ptypes {
+			ps = append(ps, string(x.ti.SortOf(pt)))
 		}
 		x.declareFun(fname, fmt.Sprintf("(declare-fun %s (%s) %s)", fname, strings.Join(ps, " "), x.ti.SortOf(rt)))
 		// axioms: forall params. typing(params) => ensures[result := f(params)]
 		var bound []*Term
 		var guards []*Term
 		vars := map[string]Value{}
-		for i := 0; i < sig.Params().Len(); i++ {
-			pt := sig.Params().At(i).Type()
+		for i, pt := range ptypes {
 			x.counter++
 			b := Atom(fmt.Sprintf("q!%d", x.counter), x.ti.SortOf(pt))
 			bound = append(bound, b)
@@ -292,16 +298,16 @@ func (x *Exec) functionalAppN(key string, c *Contract, fn *ssa.Function, args []
 	}
 	if !x.declared[base+"_0"] {
 		var ps []string
-		for i := 0; i < sig.Params().Len(); i++ {
-			ps = append(ps, string(x.ti.SortOf(sig.Params().At(i).Type())))
+		ptypes := allParamTypes(sig)
+		for _, pt := range ptypes {
+			ps = append(ps, string(x.ti.SortOf(pt)))
 		}
 		for i := 0; i < n; i++ {
 			x.declareFun(fmt.Sprintf("%s_%d", base, i), fmt.Sprintf("(declare-fun %s_%d (%s) %s)", base, i, strings.Join(ps, " "), x.ti.SortOf(sig.Results().At(i).Type())))
 		}
 		var bound, guards []*Term
 		vars := map[string]Value{}
-		for i := 0; i < sig.Params().Len(); i++ {
-			pt := sig.Params().At(i).Type()
+		for i, pt := range ptypes {
 			x.counter++
 			b := Atom(fmt.Sprintf("q!%d", x.counter), x.ti.SortOf(pt))
 			bound = append(bound, b)
@@ -357,6 +363,18 @@ func (x *Exec) functionalAppN(key string, c *Contract, fn *ssa.Function, args []
 	var out Tuple
 	for i := 0; i < n; i++ {
 		out = append(out, TV{mk(i, args), sig.Results().At(i).Type()})
+	}
+	return out
+}
+
+// allParamTypes: receiver (if any) followed by the parameters.
+func allParamTypes(sig *types.Signature) []types.Type {
+	var out []types.Type
+	if r := sig.Recv(); r != nil {
+		out = append(out, r.Type())
+	}
+	for i := 0; i < sig.Params().Len(); i++ {
+		out = append(out, sig.Params().At(i).Type())
 	}
 	return out
 }
